@@ -281,3 +281,97 @@ def narrow(ctx):
                     res.ok({"function": f.path, "total_operation": short})
     res.floor("conversion operations", n, ctx.table("floors").get("narrow_sites", 0))
     return res
+
+
+def noerrafter(pid):
+    """R-NOERRAFTER: std's contract for Read::read / Write::write / BufRead::consume users - once a call has advanced
+    the position (bytes were handed over), it must not end in an error: the caller would lose the count, and the
+    next call on the same handle continues after bytes the caller never accounted for."""
+    import re as _re
+    from prov import Prov as _Prov
+
+    def run(ctx):
+        res = RuleResult("R-NOERRAFTER(%s)" % pid, "in every Read::read / Write::write implementation no error exit is reachable after the position was advanced (consume, or a store to a position field)")
+        pos_fields = ("offset_from_start", "offset_within_sector", "pos")
+        n = 0
+        for f in ctx.fx.fns.values():
+            if f.kind == "closure" or f.d.get("impl_trait") not in ("std::io::Read", "std::io::Write") or f.d["name"] not in ("read", "write"):
+                continue
+            v = view(ctx, f)
+            adv = []
+            for bb, c in v.calls.items():
+                if _re.search(r"::consume$", c.name):
+                    adv.append((("t", bb), "consume (line %d)" % c.line))
+            for fld in pos_fields:
+                for node in v.stores_to_field(fld):
+                    adv.append((node, "store to %s (line %d)" % (fld, f.blocks[node[1]]["stmts"][node[2]]["span"]["line"])))
+            n += 1
+            errs = set(v.all_err_nodes())
+            bad = None
+            for node, what in adv:
+                after = v.pg.reach_after(node)
+                hit = [e for e in errs if e in after]
+                if hit:
+                    bad = (what, hit[0])
+                    break
+            key = "R-NOERRAFTER/%s" % f.path
+            if bad:
+                res.fail(Finding(res.rule, key + "/error-after-progress", "an error exit is reachable after %s: the call reports Err although bytes were already transferred and the position moved, so a retry on the same handle continues past bytes the caller never received" % bad[0], f))
+            else:
+                res.ok({"function": f.path, "position_advances": [w for _, w in adv][:4]}, nontrivial=bool(adv))
+        res.floor("read/write implementations", n, ctx.table("floors").get("noerrafter_fns", 0))
+        return res
+    return run
+
+
+def kindkeep(pid):
+    """R-KINDKEEP: std's exact-transfer loops (read_exact, write_all, io::copy) retry a transfer only when the
+    error kind is Interrupted.  A backend error that is re-wrapped on its way up (map_err / or_else building a
+    new io::Error without the original kind) turns a retryable interruption into a hard failure."""
+    import re as _re
+    from prov import Prov as _Prov
+
+    def run(ctx):
+        res = RuleResult("R-KINDKEEP(%s)" % pid, "no result of a call with backend I/O effects is passed through map_err / or_else that builds a new io::Error without the original error's kind()")
+        n = 0
+        for f in ctx.fx.fns.values():
+            v = view(ctx, f)
+            pr = None
+            for bb, c in sorted(v.calls.items()):
+                short = c.name.split("::")[-1]
+                if short not in ("map_err", "or_else") or "result::Result" not in c.name:
+                    continue
+                if not c.term["args"]:
+                    continue
+                pr = pr or _Prov(f)
+                recv = pr.operand(c.term["args"][0])
+                # was the receiver produced by a call with backend effects?
+                src = None
+                for b2, c2 in v.calls.items():
+                    if not c2.term["dest"]["proj"] and b2 != bb and pr.local(c2.term["dest"]["local"]) == recv and ctx.cg.call_effects(c2) & {"io_read", "io_write", "io_seek", "io_flush"}:
+                        src = c2
+                if src is None:
+                    continue
+                n += 1
+                # the closure: does it build an io::Error without consulting kind()?
+                builds, keeps = False, False
+                for g in c.all_targets() if hasattr(c, "all_targets") else []:
+                    pass
+                for cc in ctx.cg.calls[f.path]:
+                    if cc.bb == bb:
+                        for g in cc.all_targets():
+                            for c3 in ctx.cg.calls.get(g.path, []):
+                                nm = getattr(c3, "name", "") or ""
+                                if _re.search(r"io::(error::)?Error::(other|new|from)|Error::other|as std::convert::From<std::io::ErrorKind>>::from", nm):
+                                    builds = True
+                                if nm.endswith("Error::kind"):
+                                    keeps = True
+                key = "R-KINDKEEP/%s/%s" % (f.path, src.name.split("::")[-1])
+                if builds and not keeps:
+                    res.fail(Finding(res.rule, key + "/kind-dropped", "the error of %s (line %d) is replaced through %s by a newly built io::Error that does not carry the original kind(): an ErrorKind::Interrupted from the backend no longer reaches read_exact/write_all/io::copy as Interrupted, so a transfer that would have been retried fails" % (src.name.split("::")[-1], src.line, short), f, c.term["span"]))
+                else:
+                    res.ok({"function": f.path, "call": src.name.split("::")[-1], "through": short, "kind_preserved": keeps or not builds}, nontrivial=True)
+        res.floor("re-wrapped backend errors", n, 0)
+        res.notes.append("expected count on the reference tree: 0 (no backend error is re-wrapped); the kept seeded change C18-3 is the positive example exercised by the thorough tier")
+        return res
+    return run
